@@ -95,21 +95,30 @@ pub fn main(ctx: &Ctx) -> i32 {
             }
         }
     }
+    let expected: u32;
     let fail = if id == "C11" {
-        let n = ctx.tier.pick(3000u32, 60_000u32);
+        let n = ctx.tier.pick(12_000u32, 100_000u32);
+        // timed sub-tier: ~5.5 s per case, all workers in parallel (2 resp. 20 rounds on 16 cores)
+        let n_timed = ctx.tier.pick(32u32, 320u32);
+        expected = n + n_timed;
         let strat = ctx.tier.pick(strat_c11_quick as fn() -> _, strat_c11_thorough as fn() -> _);
         let mut fail = run_cases(ctx, &stats, strat, n, cores(), 3000, |c| run_case(c, "C11"));
         if fail.is_none() {
-            // timed sub-tier: ~5-6 s per case, all workers in parallel
-            let n_timed = ctx.tier.pick(32u32, 480u32);
             fail = run_cases(ctx, &stats, strat_c11_timed as fn() -> _, n_timed, cores(), 40, |c| run_case(c, "C11"));
         }
         fail
     } else {
-        let n = ctx.tier.pick(3000u32, 60_000u32);
+        let n = ctx.tier.pick(30_000u32, 400_000u32);
+        expected = n;
         let strat = ctx.tier.pick(strat_c12_quick as fn() -> _, strat_c12_thorough as fn() -> _);
         run_cases(ctx, &stats, strat, n, cores(), 3000, |c| run_case(c, "C12"))
     };
     stats.excluded_known.store(EXCLUDED_F15.load(Ordering::Relaxed), Ordering::Relaxed);
+    if fail.is_none() && stats.evaluations.load(Ordering::Relaxed) < (expected as u64) / 2 {
+        // e.g. a worker died while building its strategy: nothing was decided
+        write_evidence(ctx, &stats, &finish_info(id), 0);
+        eprintln!("inconclusive: only {} of {} cases were evaluated", stats.evaluations.load(Ordering::Relaxed), expected);
+        return 2;
+    }
     finish(ctx, &stats, finish_info(id), fail)
 }
